@@ -20,6 +20,8 @@ CLEAVAGE = {
     'T0': ('trypsin', None, 2, 2, 25, 100.),
     'TX': ('trypsin', 'trypsin_exception', 1, 3, 25, 250.),
     'LC': ('lysc', None, 1, 2, 6, 300.),
+    # tight maximum: a cleavage fragment longer than max_length whose part before a Sec codon is a valid peptide
+    'T3': ('trypsin', None, 1, 2, 3, 100.),
 }
 FLAGS = {'sect': (True, False), 'w2f': (False, True), 'both': (True, True)}
 
